@@ -21,7 +21,8 @@ from fractions import Fraction
 sys.path.insert(0, os.path.dirname(os.path.dirname(os.path.abspath(__file__))))
 from rustparse import parse_file, Untranslatable  # noqa: E402
 
-ERRS = [("Must specify one of", "EThetaSpec"), ("Can not autocalc theta", "EAutoThetaWithPoling"),
+ERRS = [("Must specify one of", "EThetaSpec"), ("beyond total internal reflection", "ETotalReflection"),
+        ("theta_external_deg must be between", "EExternalRange"), ("Can not autocalc theta", "EAutoThetaWithPoling"),
         ("Signal wavelength must be greater", "ESignalLePump"), ("Could not determine poling period", "EImpossiblePeriod"),
         ("Poling period must", "EBadPeriod")]
 UNITS = {"DEG": "(u_deg o)", "MICRO": "(u_micro o)", "NANO": "(u_nano o)", "PICO": "(u_pico o)", "MILLIW": "(u_milliw U)", "V": "(u_volt U)"}
@@ -109,6 +110,11 @@ class Exec:
                 self.fail(f"field {e[2]} of a value of type {r[0]}", e)
             ty, proj = tbl[e[2]]
             return (ty, f"({proj} {r[1]})")
+        if k == "unary" and e[1] == "!":
+            v = self.ex(e[2], env)
+            if v[0] != "bool":
+                self.fail("negation of a non-boolean", e)
+            return ("bool", f"(negb {v[1]})")
         if k == "unary" and e[1] == "-":
             v = self.ex(e[2], env)
             if v[0] != "num":
@@ -133,6 +139,16 @@ class Exec:
             self.fail("== on unsupported operands", e)
         if k == "mcall":
             m = e[2]
+            # (beam.theta_external(&crystal_setup) / RAD).is_finite(): the external angle exists
+            if m == "is_finite" and not e[3]:
+                q = strip_ref(e[1])
+                if q[0] == "bin" and q[1] == "/" and strip_ref(q[3]) == ("path", ["RAD"]):
+                    te = strip_ref(q[2])
+                    if te[0] == "mcall" and te[2] == "theta_external" and len(te[3]) == 1:
+                        b_, cs_ = self.ex(te[1], env), self.ex(te[3][0], env)
+                        if b_[0].startswith("beam") and cs_[0] == "cs":
+                            return ("bool", f"(ext_defined K {b_[1]} {cs_[1]})")
+                self.fail("is_finite on an unsupported operand", e)
             r = self.ex(e[1], env)
             if m == "abs" and r[0] == "num":
                 return ("num", f"(nabs o {r[1]})")
@@ -330,6 +346,10 @@ def gen_try_as_spdc(repo, out, lines):
     # optional up-front validation (its presence is the flag cfg_validates_wavelengths of Gen/ConfigSites.v; the steps start after it)
     if sts and sts[0][0] == "expr" and sts[0][1][0] == "if" and return_err(X, sts[0][1][2]) == "ESignalLePump":
         sts = sts[1:]
+    # optional validation of the crystal's expressions (flag cfg_validates_crystal; the model's index function is total, so the
+    # statement has no counterpart: configurations with an unevaluable crystal are outside the model)
+    if sts and sts[0] == ("expr", ("try", ("mcall", ("field", ("field", ("path", ["self"]), "crystal"), "kind"), "validate", []))):
+        sts = sts[1:]
     code = []
 
     def emit(s):
@@ -378,6 +398,15 @@ def gen_try_as_spdc(repo, out, lines):
                 er = return_err(X, e)
                 if er:
                     return f"Err {er}"
+                # leading guards `if C { return Err(..); }` before the effect
+                if e[0] == "block" and len(e[1]) > 1 and e[2] is None and e[1][0][0] == "expr" and e[1][0][1][0] == "if" and e[1][0][1][3] is None:
+                    g = e[1][0][1]
+                    ger = return_err(X, g[2])
+                    c = X.ex(g[1], env)
+                    if ger is None or c[0] != "bool":
+                        X.fail("guard statement", g)
+                    rest = eff(("block", e[1][1:], None), cs)
+                    return f"(if {c[1]} then Err {ger} else {rest})"
                 if e[0] == "block" and len(e[1]) == 1 and e[2] is None and e[1][0][0] == "expr":
                     m = e[1][0][1]
                     if m[0] == "mcall" and m[2] == "assign_optimum_theta" and strip_ref(m[1]) == ("path", ["crystal_setup"]) and len(m[3]) == 2:
@@ -702,9 +731,23 @@ def gen_helpers(repo, out, lines):
         a1, a2 = X.ex(r1[3][0], e1), X.ex(r1[3][1], e1)
         e2 = dict(env)
         e2[v2] = ("num", v2)
+        # optional range check first: `{ if !(theta_e.abs() < 90.) { return Err(..); } beam.set_theta_external(..) }`
+        guard = None
+        if r2[0] == "block" and len(r2[1]) == 1 and r2[2] is not None and r2[1][0][0] == "expr" and r2[1][0][1][0] == "if" and r2[1][0][1][3] is None:
+            er2 = return_err(X, r2[1][0][1][2])
+            if er2 is None:
+                X.fail("external-angle arm: guard does not return an error", r2)
+            cnd = X.ex(r2[1][0][1][1], e2)
+            if cnd[0] != "bool":
+                X.fail("external-angle arm: guard condition", r2)
+            guard = (cnd[1], er2)
+            r2 = r2[2]
         if r2[0] != "mcall" or r2[1] != ("path", ["beam"]) or r2[2] != "set_theta_external" or len(r2[3]) != 2 or r2[3][1] != ("path", ["crystal_setup"]):
             X.fail("external-angle arm", r2)
         b1 = X.ex(r2[3][0], e2)
+        ext_arm = f"set_theta_external o K beam {b1[1]} cs"
+        if guard:
+            ext_arm = f"if {guard[0]} then Err {guard[1]} else {ext_arm}"
         er = X.err_of(r3)
         if it.body[2] != ("call", ("path", ["Ok"]), [("mcall", ("path", ["beam"]), "into", [])]):
             X.fail("result is not Ok(beam.into())")
@@ -713,7 +756,7 @@ def gen_helpers(repo, out, lines):
                      f"    let phi := {phi[1]} in\n    let beam := {bn} in\n"
                      f"    match bc_theta_deg c, bc_theta_ext_deg c with\n"
                      f"    | Some {v1}, None => Ok (set_angles o beam {a1[1]} {a2[1]})\n"
-                     f"    | None, Some {v2} => set_theta_external o K beam {b1[1]} cs\n"
+                     f"    | None, Some {v2} => {ext_arm}\n"
                      f"    | _, _ => Err {er}\n    end.\n")
     # ---- apodization config -> apodization
     apath = os.path.join(repo, "src/spdc/config/apodization.rs")
